@@ -62,6 +62,8 @@ Inv_C13_Conj == Leaf => C13_ChargeConjugation(Cell)
 Inv_C13_Exch == Leaf => C13_EqualChargeExchange(Cell)
 Inv_C16 == Leaf => C16_OutcomeTotal(Cell)
 Inv_Registry == Leaf => RegistryComplete(Cell)
+Inv_C08_Mirror == Leaf => C08_AsyMirrorsMassive(Cell)
+Inv_C08_Missing == Leaf => C08_MissingMirrors(Cell)
 \* not an invariant: reachable witnesses that in-place sharing WOULD be harmful (expected violated)
 NoSharingHarm == Leaf => ~SharingHarmful(Cell)
 =============================================================================
